@@ -738,12 +738,26 @@ where
                 .pase
                 .check_comm_window_timeout(&mut notify_mdns, &mut notify_change)?;
 
+            // The CASE resumption records of a fabric dropped by the rollback go
+            // with it (its sessions are purged by `FailSafe::expire` itself)
+            #[cfg(feature = "case-resumption")]
+            if let Some(fab_idx) = removed_fabric {
+                state.resumption.remove_for_fabric(fab_idx);
+            }
+
             Ok::<_, Error>(removed_fabric)
         })?;
 
         // Outside `with_state`, since the broadcast runs the handlers inline
         // and they are free to access the Matter state themselves
         if let Some(fab_idx) = removed_fabric {
+            // Sessions (and resumption records) were dropped: wake up whoever waits
+            // on them (e.g. the subscriptions' reporter, which then drops the
+            // subscriptions of the removed fabric)
+            self.matter.transport().notify_session_removed();
+            #[cfg(feature = "case-resumption")]
+            self.matter.transport().notify_resumption_dirty();
+
             self.notify_fabric_removed(fab_idx);
         }
 
